@@ -377,7 +377,7 @@ def run(ck):
         ok = ok and len(reach_) == 1 and flow.equivalent(reach_[0][1], ('atom', ('truth', 'interaction_match(self, interaction, template_interaction)')))[0]
     ck.ob('DT-interaction-match', molmod.loc(rmi), ok, 'remove_matching_interaction deletes the first interaction that matches the template and raises when none does', key='DT-interaction-match|remove')
     amc = [c for c in walk_local(mod.func('_atoms_match')) if isinstance(c, ast.Call) and call_name(c) == 'attributes_match']
-    ok = any(try_fold(kwarg(c, 'ignore_keys'), default=()) == ('order', 'replace', 'modifications') and [u(a) for a in c.args] == ['node1', 'node2'] for c in amc)
+    ok = any(try_fold(kwarg(c, 'ignore_keys'), default=()) == ('order', 'replace', 'modifications') and [u(a) for a in c.args[:2]] == ['node1', 'node2'] for c in amc)
     ck.ob('DT-attributes-match', mod.loc(mod.func('_atoms_match')), ok, 'link atoms are compared on every attribute except order, replace and modifications (handled separately)',
           key='DT-attributes-match|atoms_match')
     # predicates usable as attribute values in links
@@ -420,7 +420,8 @@ def run(ck):
     ck.ob('DT-attributes-match', mod.loc(atm), ok, 'modifications of a link atom: no condition, or both empty, or both non-empty and (a list that equals the atom\'s modification names '
           'as a set of names, or a value/choice that accepts every one of them)', key='DT-attributes-match|modifications')
     rt = [s_ for s_ in atm.body if isinstance(s_, ast.Return)]
-    ck.ob('DT-attributes-match', mod.loc(atm), len(rt) == 1 and u(rt[0].value) == "bool(mods_match and attributes_match(node1, node2, ignore_keys=('order', 'replace', 'modifications')))",
+    ck.ob('DT-attributes-match', mod.loc(atm), len(rt) == 1 and u(rt[0].value) in ("bool(mods_match and attributes_match(node1, node2, ignore_keys=('order', 'replace', 'modifications')))",
+                                                                                "bool(mods_match and attributes_match(node1, node2, ('order', 'replace', 'modifications')))"),
           'an atom fits a link atom when the modification condition and all its other attributes match', key='DT-attributes-match|atoms_match-result')
     mods = [l for l in atm.body if isinstance(l, ast.For)]
     md_ = single_def(atm, 'mods')
